@@ -12,6 +12,9 @@ macro_rules! dispatch {
         match $id {
             "C12" => $f(&props::c12::C12, $($arg),*),
             "C13" => $f(&props::c13::C13, $($arg),*),
+            "C14" => $f(&props::c14::C14, $($arg),*),
+            "C15" => $f(&props::c15::C15, $($arg),*),
+            "C16" => $f(&props::c16::C16, $($arg),*),
             other => {
                 eprintln!("unknown property id {other}");
                 2
